@@ -34,6 +34,7 @@ type RecCache struct {
 	mu         sync.Mutex
 	Inner      setec.Cache
 	Writes     []CacheWrite
+	Initial    []byte       // contents before the first write
 	FailWrites map[int]bool // indices of Write calls that fail
 	ReadErr    bool
 	Reads      int
@@ -92,7 +93,7 @@ func (c *RecCache) LastGood() []byte {
 			return c.Writes[i].Data
 		}
 	}
-	return nil
+	return c.Initial // nothing was ever written successfully: the cache still holds what it started with
 }
 
 // NumWrites returns the number of Write calls.
@@ -242,7 +243,7 @@ func (w *World) Spawn(kind string, fn func(t *kernel.Task)) {
 
 // MemCache returns a recording cache over a MemCache with initial contents.
 func (w *World) MemCache(initial string) *RecCache {
-	return &RecCache{w: w, Inner: setec.NewMemCache(initial), FailWrites: map[int]bool{}}
+	return &RecCache{w: w, Inner: setec.NewMemCache(initial), Initial: []byte(initial), FailWrites: map[int]bool{}}
 }
 
 // Action is one option of the root at a step.
